@@ -46,7 +46,7 @@ def gen(rng: random.Random, tier: str, idx: int) -> dict:
         elif r < 0.8:
             first = {"kind": "load"}
         else:
-            first = {"kind": "first_append", "tag": f"f{i}", "schema": rng.choice([None, "A", "B"]),
+            first = {"kind": "first_append", "tag": f"f{i}", "schema": rng.choice([None, "A", "B", "Ar"]),
                      "noinit": rng.random() < 0.4}
         ops = [first]
         if rng.random() < 0.5:
@@ -170,7 +170,7 @@ def execute(plan: dict, scratch: str, replay: Optional[dict] = None) -> dict:
                     if not passed and persisted:
                         V.append({"clause": "I.append_rejected",
                                   "msg": f"[{cfg}] {h['actor']} schema-less append rejected although the table has a persisted schema: {(h.get('msg') or '')[:160]}"})
-                    if passed and (not persisted or persisted == world.SCHEMAS[passed]):
+                    if passed and passed != "Ar" and (not persisted or persisted == world.SCHEMAS[passed]):
                         V.append({"clause": "I.append_rejected",
                                   "msg": f"[{cfg}] {h['actor']} append with a matching / first schema rejected: {(h.get('msg') or '')[:160]}"})
                 if h["outcome"] == "ok" and st is not None and not h["op"].get("schema") and not st.schema_fields:
